@@ -338,6 +338,17 @@ def rule_tables(R, ctx, rid="C09.tables"):
         wb = _bias(wf, "-")
         rb = _bias(rf, "+")
         R.ob(rid, wf, "rle-bias", bias in wb and bias in rb, "writer subtracts %s, reader adds %s (expected %d on both sides)" % (sorted(wb), sorted(rb), bias))
+        # the primitives of the column: what the writer emits with write_K the reader takes with read_K (a run length written as a
+        # var-int and read as one byte breaks at the first run of 129)
+        def kinds(fn, side):
+            out = []
+            for c in fn.calls():
+                m = re.search(r"::(?:Write|Read)::(%s)_(\w+)$" % side, F.strip_generics(c.name))
+                if m:
+                    out.append(m.group(2))
+            return sorted(set(out))
+        wk, rk = kinds(wf, "write"), kinds(rf, "read")
+        R.ob(rid, wf, "column-primitives", wk == rk and bool(wk), "writer writes %s, reader reads %s" % (wk, rk))
     vd = Y.fn("yrs::encoding::varint::write_var_i64")
     R.touch(vd)
 
